@@ -197,6 +197,8 @@ defect("fixed-without-length", "f", only=_fixed_only)(_set(4, ""))
 defect("fixed-length-is-range", "f", only=_fixed_only)(_set(4, "1...3"))
 defect("fixed-length-zero", "f", only=_fixed_only)(_set(4, "0"))
 defect("fixed-length-open", "f", only=_fixed_only)(_set(4, "2..."))
+defect("fixed-length-two-parts-one-open", "f", only=_fixed_only)(_set(4, "2, 3..."))
+defect("fixed-length-open-part-first", "f", only=_fixed_only)(_set(4, "...1, 2"))
 defect("integer-rule-symbol", "f", type_name="Integer")(_set(6, "abc"))
 defect("integer-rule-descending", "f", type_name="Integer")(_set(6, "10...1"))
 defect("integer-rule-descending-to-zero", "f", type_name="Integer")(_set(6, "10...0"))
@@ -332,7 +334,8 @@ def apply_rewrites(rows, names, rng):
     for name in names:
         if name == "comment-rows":
             for _ in range(rng.randint(1, 3)):
-                rows.insert(rng.randint(0, len(rows)), ["", rng.choice(["a comment", "f", "d format nonsense", ""]), "x"])
+                rows.insert(rng.randint(0, len(rows)), ["", rng.choice(["a comment", "f", "d format nonsense", "", "see: a;b;c;d;e;f;g;h;i;j;k;l;m;n;o;p;q;r;s;t;u;v;w;x;y;z" + ";" * 60,
+                                                                          "tab\tseparated\tremark" + "\t" * 80]), "x"])
         elif name == "empty-rows":
             # a row with one empty cell and a row without any cell (a blank line in a CSV file)
             rows.insert(rng.randint(0, len(rows)), [""])
